@@ -17,6 +17,8 @@
 #include <map>
 #include <string>
 #include <unordered_set>
+#include <utility>
+#include <cstdint>
 #include <vector>
 #include <poll.h>
 #include <sys/mman.h>
@@ -88,6 +90,24 @@ inline Eval eval_forked_finish(int fd_out, int fd_err, pid_t pid) {
   return e;
 }
 
+// Visited set: by default a state is remembered by a 128-bit fingerprint of its canonical string (libstdc++'s 64-bit
+// Murmur hash and a 64-bit FNV-1a), not by the string itself - "hash compaction" as in Spin/TLC. A depth-6/7 search keeps 10^7 states and
+// the full strings (100-400 bytes each, more under ASan) exhausted the machine's memory when 16 harness processes ran side by side.
+// Two different states are merged only if both hashes collide: for n states the probability is below n^2 / 2^129 (n = 10^8: < 10^-22).
+// full_keys = true (or VERIF_FULL_KEYS=1) keeps the strings.
+struct Fp128 { uint64_t a, b; bool operator==(const Fp128 &o) const { return a == o.a && b == o.b; } };
+struct Fp128Hash { size_t operator()(const Fp128 &k) const { return (size_t)(k.a ^ (k.b * 0x9E3779B97F4A7C15ull)); } };
+inline Fp128 fingerprint(const std::string &s) {
+  uint64_t f = 0xCBF29CE484222325ull; for (unsigned char ch : s) { f ^= ch; f *= 0x100000001B3ull; }    // FNV-1a: a different algorithm, so that a weakness of one is not shared
+  f ^= f >> 29; f *= 0xBF58476D1CE4E5B9ull; f ^= f >> 32;
+  return Fp128{(uint64_t)std::_Hash_bytes(s.data(), s.size(), 0xC70F6907u), f ^ ((uint64_t)s.size() << 52)};
+}
+struct SeenSet {
+  bool full = false; std::unordered_set<std::string> strs; std::unordered_set<Fp128, Fp128Hash> fps;
+  bool insert(const std::string &c) { return full ? strs.insert(c).second : fps.insert(fingerprint(c)).second; }
+  bool count(const std::string &c) const { return full ? strs.count(c) != 0 : fps.count(fingerprint(c)) != 0; }
+};
+
 template <class Op>
 struct Explorer {
   using Hist = std::vector<Op>;
@@ -99,6 +119,8 @@ struct Explorer {
   int fork_workers = 0;          // 0 = in-process; >0 = fork per evaluation with this many concurrent children
   double deadline_s = 1e18;      // absolute (now_s()) deadline; hitting it is a reported cap
   size_t max_states = (size_t)-1;
+  bool full_keys = false;        // true: the visited set keeps whole canonical strings instead of 128-bit fingerprints
+  size_t chunk_candidates = 1u << 17;   // candidates evaluated per batch (memory bound; the exploration order does not depend on it)
   size_t max_viol_print = 40;
   bool check_replay_determinism = true;   // re-evaluate a sample of histories and compare canon
   int child_timeout_s = 20;
@@ -157,25 +179,32 @@ struct Explorer {
   }
 
   void explore(size_t depth) {
-    std::unordered_set<std::string> seen;
+    SeenSet seen; seen.full = full_keys || (getenv("VERIF_FULL_KEYS") && atoi(getenv("VERIF_FULL_KEYS")) != 0);
     std::vector<Hist> layer; std::vector<Eval> ev;
     { std::vector<Hist> init(1); eval_batch(init, ev); if (ev.empty()) return; if (!ev[0].viol.empty()) { report_viol(init[0], ev[0].viol); } seen.insert(ev[0].canon); states = 1; layer.push_back(Hist()); }
     for (size_t d = 0; d < depth && !layer.empty() && !capped; d++) {
-      std::vector<Hist> cand;
-      for (auto &h : layer) { size_t oi = 0; for (auto &op : menu(h)) { if (d == 0 && nparts > 1 && (int)(oi++ % (size_t)nparts) != part) continue; cand.push_back(h); cand.back().push_back(op); } }
-      eval_batch(cand, ev);
-      std::vector<Hist> next;
-      for (size_t i = 0; i < ev.size(); i++) {
-        transitions++;
-        if (!ev[i].viol.empty()) { report_viol(cand[i], ev[i].viol); if (!expand_after_violation) continue; }
-        if (seen.insert(ev[i].canon).second) {
-          states++; maxdepth = std::max(maxdepth, cand[i].size());
-          if (samples_out < 3 && cand[i].size() >= std::min<size_t>(depth, 3)) { samples_out++; printf("@SAMPLE %s: %s => %s\n", name.c_str(), hist_str(cand[i]).c_str(), ev[i].canon.substr(0, 200).c_str()); }
-          next.push_back(cand[i]);
-          if (states >= max_states) { capped = true; printf("@CAP %s: max_states %zu reached at depth %zu\n", name.c_str(), max_states, d + 1); break; }
+      // the layer is expanded in chunks (same order as in one piece) so that the candidates and their results never occupy more than
+      // a bounded amount of memory - a depth-6 layer can have tens of millions of candidates
+      std::vector<Hist> next; size_t li = 0;
+      while (li < layer.size() && !capped) {
+        std::vector<Hist> cand;
+        while (li < layer.size() && cand.size() < chunk_candidates) {
+          const Hist &h = layer[li++]; size_t oi = 0;
+          for (auto &op : menu(h)) { if (d == 0 && nparts > 1 && (int)(oi++ % (size_t)nparts) != part) continue; cand.push_back(h); cand.back().push_back(op); }
         }
+        eval_batch(cand, ev);
+        for (size_t i = 0; i < ev.size(); i++) {
+          transitions++;
+          if (!ev[i].viol.empty()) { report_viol(cand[i], ev[i].viol); if (!expand_after_violation) continue; }
+          if (seen.insert(ev[i].canon)) {
+            states++; maxdepth = std::max(maxdepth, cand[i].size());
+            if (samples_out < 3 && cand[i].size() >= std::min<size_t>(depth, 3)) { samples_out++; printf("@SAMPLE %s: %s => %s\n", name.c_str(), hist_str(cand[i]).c_str(), ev[i].canon.substr(0, 200).c_str()); }
+            next.push_back(cand[i]);
+            if (states >= max_states) { capped = true; printf("@CAP %s: max_states %zu reached at depth %zu\n", name.c_str(), max_states, d + 1); break; }
+          }
+        }
+        if (ev.size() < cand.size()) { capped = true; }
       }
-      if (ev.size() < cand.size()) { capped = true; }
       // determinism of replay: the same history must give the same canonical state
       if (check_replay_determinism && !next.empty()) {
         std::vector<Hist> again; size_t stepn = std::max<size_t>(1, next.size() / 8);
